@@ -179,4 +179,41 @@ def getLabel (st : LabelState) (d : Desc) : Label × LabelState :=
       let l : Label := { hint := (d.func, d.mono, d.captures.map (·.1)), id := some st.counter }
       (l, { map := (d, l) :: st.map, counter := st.counter + 1 })
 
+/-! ### operators on non-builtin types (`translate_expr` BinOp / compound assignment) -/
+
+inductive Oper where
+  | add | sub | mul | div | pow         -- + - * / ^
+  | lt | le | gt | ge                   -- < <= > >=
+  | eq | ne                             -- == !=
+  | concat                              -- ..
+deriving DecidableEq, Repr
+
+/-- interface and method an operator is lowered to when the operand type is not a builtin scalar:
+    `helper(mono, "prelude.Num.add")` … (`!=` is `Equal.equal` followed by `Not`, `..` converts both
+    operands with `ToString.str`) -/
+def Oper.method : Oper → String × String
+  | .add => ("Num", "add") | .sub => ("Num", "subtract") | .mul => ("Num", "multiply")
+  | .div => ("Num", "divide") | .pow => ("Num", "power")
+  | .lt => ("Ord", "less_than") | .le => ("Ord", "less_than_or_equal")
+  | .gt => ("Ord", "greater_than") | .ge => ("Ord", "greater_than_or_equal")
+  | .eq => ("Equal", "equal") | .ne => ("Equal", "equal")
+  | .concat => ("ToString", "str")
+
+/-- the operators that have a compound-assignment form (`+= -= *= /=`; `%=` is int only) -/
+def Oper.compound : Oper → Bool
+  | .add | .sub | .mul | .div => true
+  | _ => false
+
+/-- `x op= v` on a user type: LoadOffset / index_get, rhs, then the same interface method as `x op v` -/
+def compoundMethod (o : Oper) : Option (String × String) :=
+  if o.compound then some o.method else none
+
+/-- position of a method in its prelude interface -/
+def ifaceMethods : String → List String
+  | "Num" => ["add", "subtract", "multiply", "divide", "power"]
+  | "Ord" => ["less_than", "less_than_or_equal", "greater_than", "greater_than_or_equal"]
+  | "Equal" => ["equal"]
+  | "ToString" => ["str"]
+  | _ => []
+
 end Abra.Mono
